@@ -1,7 +1,7 @@
 P = {
-    "gens": ["C07agents", "C07race"],
+    "gens": ["C07agents", "C07race", "C07churn"],
     "theorems": ["C07_exact", "C07_fetch_exactly_once", "C07_mailbox_linearizable", "C07_mailbox_unlocked_refuted",
-                 "C07_mailbox_unlocked_refuted_twice", "C07_report_iff_handover", "C07_report_iff_handover_step"],
+                 "C07_mailbox_unlocked_refuted_twice", "C07_report_iff_handover", "C07_report_iff_handover_step", "C07_nobody_registered", "C07_amid_others"],
     "rule": "histories of register / unregister / fetch / connect / disconnect / deliver on a real Core with real MuxAgent, "
             "RestAgent (httptest), WebSocketAgent (real connectors), PingAgent and mock agents and two mock peers: every "
             "sequence of <= 3 recipients over the four kinds (= every registration order) x {same, alternating endpoints} x "
@@ -9,11 +9,23 @@ P = {
             "operations with 0..8 agents; per step the hand-overs, sends, reports, store state, fetch responses and the "
             "clients / mailbox maps are compared with the model and judged by the property checker. Deliver/fetch race: "
             "forced interleaving (fetch stopped between Load and Delete through a logrus hook, delivery in the window) "
-            "with 0..3 bundles in the mailbox, and hook-free stress runs. distinct = distinct case bodies",
+            "with 0..3 bundles in the mailbox, and hook-free stress runs. Unregistered clients: WebSocket clients that are connected "
+            "but have not registered (raw protocol client: dial only, late / second / unparsable registration), REST agents without a "
+            "matching client, deliveries to dtn:none (also as report-to) and to endpoints nobody registered, exhaustively over 1..2 "
+            "unregistered clients x {no, mock, ping, REST, WS} registered recipient x {node-local, foreign} and inside the random "
+            "histories: nobody may receive, no report, no release. Churn (C07churn): stable recipients (mock agents, REST client, "
+            "WebSocket clients, ping agent, an unregistered WebSocket client) stay registered while other agents register / leave "
+            "(they were registered before the stable ones, >= 3 children, one of them with a yielding Endpoints()), other WebSocket "
+            "clients connect / disconnect, other REST clients register / unregister, now and then a leaving agent / client shares "
+            "the stable recipients' endpoint - concurrently with a bundle stream and a HasEndpoint prober; on the MuxAgent alone "
+            "(900 phases), the WebSocketAgent alone (100 phases) and a real Core (5 runs): every bundle reaches every stable "
+            "recipient exactly once, HasEndpoint never answers false, nothing goes to a peer, nobody else receives anything, the "
+            "implementation does not deadlock. distinct = distinct case bodies",
     "assumptions": [
         "handlers of the Core and of the agents are atomic w.r.t. each other except deliver/fetch on one mailbox "
         "(sub-step model, all interleavings); a client that unregisters between AgentManager.HasEndpoint and the "
-        "multiplexer's fan-out is not modelled",
+        "multiplexer's fan-out is not modelled (C07_amid_others covers every history of *other* agents' events between the "
+        "registration of a recipient and a delivery; the churn generator runs them truly concurrently)",
         "bundles are not administrative records; no CLA endpoint IDs registered at the CLA manager",
         "forwarding is abstracted to 'given to every connected peer and kept in the store' (epidemic, mock senders succeed)",
     ],
